@@ -142,6 +142,17 @@ CLAIMED = {
              "UTF-8, NUL, dots, backslashes, empty and maximal strings.",
         technique="Coq proof of the conversion decision logic (thin) + implementation run of all observers under catch_unwind with model-predicted error counts",
         ref="DESIGN.md section 6, C12"),
+    "C14": dict(
+        text="PARTIAL. Kernel-checked theorems over the loop bodies of the responder, the discovery listener and the one-shot "
+             "resolver's peeks written as functions of (store, datagram, clock), in which every indexing / unwrap is a Panic "
+             "outcome and every loop runs on fuel: for EVERY datagram (any length, any bytes) and EVERY store (no invariant "
+             "assumed) each handler returns normally; the listener leaves a store satisfying the store invariant; a reply that "
+             "is produced is the compressed serialisation of the reply packet and parses back to it when the registered records "
+             "are well-formed and the reply has < 65536 records per section (and then the build step cannot fail). Threads, the "
+             "RwLock, sockets and the tokio twins are outside the model; the same loop bodies are driven on the implementation "
+             "through the cfg(simple_dns_verif) wrappers with empty / short / malformed / hostile datagrams against generated stores.",
+        technique="Coq proof (composition of parser totality, store totality and the compressed round trip) + model/implementation correspondence on datagram pipelines",
+        ref="DESIGN.md section 6, C14"),
     "C16": dict(
         text="Kernel-checked theorems: into_owned (modelled as a field-wise rebuild) is the identity and preserves the serialisation "
              "(short by nature); records that compare equal feed the hasher the same tokens (both use name, class, rdata); "
